@@ -12,7 +12,11 @@ Tie (model layer, generated modules of lib/modcorpus.py):
  XER   layout variants of the C's own BASIC/CANONICAL output (oracle on the C alone);
        VALUE-LEVEL variants (lib/c03_xval.py): every character of every string type in every legal spelling, hstring / bstring
        bodies in either case with white space / comments, number and value items with white space around; expected DER computed
-       in Python; the text reader also against the extracted model (Rt/ResumeX.v, Rt/EntrefComplete.v)."""
+       in Python; the text reader also against the extracted model (Rt/ResumeX.v, Rt/EntrefComplete.v);
+       UNKNOWN EXTENSION ADDITIONS with arbitrary XML subtrees (lib/c03_xskip.py): documents of a newer version of an extensible
+       SEQUENCE / SET / CHOICE written by an independent XER writer, read by the older version; the skip machine against the
+       extracted model (Rt/XerSkip.v).
+Development switches (not used by bin/vcheck): C03_ONLY=xskip runs that part alone, C03_SKIP_PROOFS=1 skips the Coq build."""
 import sys, os
 sys.path.insert(0, os.path.join(os.path.dirname(os.path.abspath(__file__)), "..", "lib"))
 from vlib import *
@@ -28,6 +32,7 @@ import c03_oerpos as P
 import c03_regions as RG
 import c03_xval as XV
 import c05x_util as X5
+import c03_xskip as XS
 
 F_CHAIN = "C03-ber-chain-mixed-lengths"
 
@@ -342,12 +347,43 @@ def xer_part(run, mods, cases, rng, tier):
             run.sample({"xer": meta[-1][3][:100], "variant": meta[-1][4][:140]})
 
 
+import contextlib
+
+
+@contextlib.contextmanager
+def ext_build_with_c03_commands():
+    """the modules of the ext layer get the C03 commands of harness/moddrv_c03.inc too (`xsk` for lib/c03_xskip.py)"""
+    orig = ext_layer.build_modules
+    ext_layer.build_modules = lambda mods, tag="mods", **kw: orig(mods, tag=tag, moddrv_extra=os.path.join(HARNESS, "moddrv_c03.inc"), **kw)
+    try:
+        yield
+    finally:
+        ext_layer.build_modules = orig
+
+
 def main(tier):
     run = Run("C03", tier)
     rng = Rng(run.seed)
-    ok, out = coq_build()
-    nthm, ndis, axioms, names, plog = obligations("C03") if ok else (0, 0, set(), [], out)
-    gate = grep_gate()
+    only = os.environ.get("C03_ONLY")
+    if os.environ.get("C03_SKIP_PROOFS"):
+        ok, out, nthm, ndis, axioms, names, plog, gate = True, "", 0, 0, set(), [], "", []
+    else:
+        ok, out = coq_build()
+        nthm, ndis, axioms, names, plog = obligations("C03") if ok else (0, 0, set(), [], out)
+        gate = grep_gate()
+    if only == "xskip":
+        model = model_build()
+        mk7 = XS.module()
+        build_modules([mk7], tag="c03x", moddrv_extra=os.path.join(HARNESS, "moddrv_c03.inc"))
+        if not mk7.get("exe"):
+            print(mk7.get("asn1c_out", "")[-1500:], mk7.get("build_log", "")[-1500:])
+        with ext_build_with_c03_commands():
+            xmods, _ = ext_layer.build(run, ext_layer.own_rng(run, 3), tier, "extc03")
+        XS.run_part(run, model, mk7, xmods, Rng(run.seed * 1000003 + 39), tier, run_mod, run_lines)
+        import collections
+        log("C03_ONLY=xskip: violations by kind: %s" % dict(collections.Counter(v["kind"] for v in run.violations)))
+        log("C03_ONLY=xskip: by case family: %s" % dict(collections.Counter(str(v.get("case", "")).split("|")[-1].split(":")[0] for v in run.violations)))
+        return run.finish("proof", (nthm, ndis))
     if not ok or ndis != nthm or gate:
         run.violation("proof:Properties_C03", {"what": "Coq development does not build or an obligation is open",
                                                "log_tail": (out if not ok else plog)[-2000:], "grep_gate": gate}, no_input=True)
@@ -365,8 +401,10 @@ def main(tier):
     mo5 = RG.wide_module()
     # value-level XER variants (lib/c03_xval.py): MS5 of lib/c05x_util.py and the directed module MX6
     ms5, mx6 = X5.string_module(), XV.module()
-    build_modules([sm, mt1, mt2, mo5, ms5, mx6], tag="c03x", moddrv_extra=os.path.join(HARNESS, "moddrv_c03.inc"))
-    for m in (ms5, mx6):
+    # unknown extension additions in XER (lib/c03_xskip.py): the directed readers MK7
+    mk7 = XS.module()
+    build_modules([sm, mt1, mt2, mo5, ms5, mx6, mk7], tag="c03x", moddrv_extra=os.path.join(HARNESS, "moddrv_c03.inc"))
+    for m in (ms5, mx6, mk7):
         if not m.get("exe"):
             run.violation("build:module", {"what": "a hand-written module of string / number types was rejected or its code does not compile", "module": m["text"],
                                            "asn1c_out": m.get("asn1c_out", "")[-1200:], "build_log": m.get("build_log", "")[-1200:]})
@@ -437,14 +475,20 @@ def main(tier):
         ext_layer.run_c03(run, rng, tier)
         setdef_layer.run_c03(run, rng, tier)
         primb_layer.run_c03(run, rng, tier)
+        with ext_build_with_c03_commands():
+            ext_layer.run_c03(run, rng, tier)
     finally:
         ext_layer.build, ext_layer.model_encode = orig_build, orig_encode
     prima_layer.run_c03(run, rng, tier)
     t0 = time.time()
     ext_oer_part(run, model, captured, Rng(run.seed * 1000003 + 33), tier)
     log("C03: ext oer sweep %.1fs" % (time.time() - t0))
+    t0 = time.time()
+    # XER documents of newer versions with arbitrary unknown subtrees: MK7 and the families the ext layer has built (a stream of its own)
+    XS.run_part(run, model, mk7, captured.get("mods") or [], Rng(run.seed * 1000003 + 39), tier, run_mod, run_lines)
+    log("C03: xer unknown additions %.1fs" % (time.time() - t0))
     tb = ["Coq 8.16.1 kernel", "axioms under Print Assumptions: " + (", ".join(sorted(axioms)) or "none (Closed under the global context)"),
-          "extraction: ExtrOcamlBasic only; OCaml 4.13.1", "lib/c03_util.py, lib/c03_xval.py, lib/c05x_util.py (independent variant generators and expected values), lib/modgen.py, harness/moddrv.c, gcc + ASan/UBSan"]
+          "extraction: ExtrOcamlBasic only; OCaml 4.13.1", "lib/c03_util.py, lib/c03_xval.py, lib/c03_xskip.py, lib/c05x_util.py (independent variant generators and expected values), lib/modgen.py, harness/moddrv.c, gcc + ASan/UBSan"]
     return run.finish("proof", (nthm, ndis), trusted_base=tb,
                       checker_cmd="make -C /verif all && coqc -Q coq A1 coq/Props/Properties_C03.v",
                       extra_cov={"theorems": names, "modules": len(mods),
